@@ -468,13 +468,50 @@ theorem step_exec (fuel : Nat) (ihE : PExec fuel) (ihL : PList fuel) (ihA : PAO 
       simp only [Prod.mk.injEq] at h
       obtain ⟨rfl, rfl⟩ := h
       and_intros <;> first | rfl | trivial
-  | setE on =>
+  | setOpt o on =>
     simp only [exec, Option.some.injEq] at h
     simp only [spec, absB_normal_pending, Bool.false_eq_true, ↓reduceIte]
     obtain ⟨e, ok, l⟩ := post_spec h L d trivial
     refine ⟨congrArg some ?_, ok, l⟩
     rw [← e, errexitCheck_zero _ _ rfl]
     rfl
+  | cmdsubst c =>
+    simp only [viol] at hws
+    simp only [exec] at h
+    split at h
+    · simp at h
+    · rename_i s1 r1 he
+      obtain ⟨e1, ok1, l1⟩ := ihE fs sup c _ s1 r1 0 0 hfs hws (Nat.le_refl 0) he
+      simp only [spec, absB_normal_pending, Bool.false_eq_true, ↓reduceIte]
+      erw [e1]
+      simp only [Option.some.injEq] at h
+      obtain ⟨e, ok, l⟩ := post_spec h L d trivial
+      simp only [absB_st, l1]
+      exact ⟨congrArg some e, ok, l⟩
+  | evalC c =>
+    simp only [viol] at hws
+    simp only [exec] at h
+    split at h
+    · simp at h
+    · rename_i s1 r1 he
+      obtain ⟨e1, ok1, l1⟩ := ihE fs sup c s s1 r1 d L hfs hws hdL he
+      simp only [spec, absB_normal_pending, Bool.false_eq_true, ↓reduceIte, e1]
+      simp only [Option.some.injEq] at h
+      obtain ⟨e, ok, l⟩ := post_spec' h l1 L d ok1
+      exact ⟨congrArg some e, ok, l⟩
+  | pipe codes lastc =>
+    simp only [viol] at hws
+    simp only [exec] at h
+    split at h
+    · simp at h
+    · rename_i s1 r1 he
+      obtain ⟨e1, ok1, l1⟩ := ihE fs sup lastc s s1 r1 0 0 hfs hws (Nat.le_refl 0) he
+      simp only [spec, absB_normal_pending, Bool.false_eq_true, ↓reduceIte]
+      erw [e1]
+      simp only [Option.some.injEq] at h
+      obtain ⟨e, ok, l⟩ := post_spec h L d trivial
+      simp only [absB_st, l1]
+      exact ⟨congrArg some e, ok, l⟩
 
 @[simp] theorem brk_beq_ret (k : Nat) : (Flow.brk k == Flow.ret) = false := by
   apply beq_false_of_ne; intro h; cases h
